@@ -8,9 +8,10 @@ C32 — what the property demands, read literally:
 Headers are an ordered multimap (C06 Spec); a header's value is its field values joined by ",".
 -/
 import TornadoModel.C32.Model
+import TornadoModel.C43.Spec
 namespace TornadoModel.C32.Spec
 open TornadoModel.C06 (Str Headers)
-open TornadoModel.C43 (strip splitAll)
+open TornadoModel.C43 (strip splitAll isDigit isHexDigit hexVal)
 open TornadoModel.C32
 
 def candidate (trusted : List Str) (xff realIp : Option Str) : Option Str :=
@@ -28,6 +29,63 @@ def remoteIp (valid : Str → Bool) (sockIp : Str) (trusted : List Str) (xff rea
 
 def remoteIpOf (valid : Str → Bool) (sockIp : Str) (trusted : List Str) (h : Headers) : Str :=
   remoteIp valid sockIp trusted (hget h "X-Forwarded-For") (hget h "X-Real-Ip")
+
+/-! ### "a numeric IP address" — written from inet(3) / RFC 4291 / RFC 4007, sharing nothing with `is_valid_ip`
+
+* IPv4 numbers-and-dots notation as `inet_aton` reads it (inet(3)): `a.b.c.d`, `a.b.c`, `a.b`, `a`; each number in C
+  notation — decimal, octal with a leading `0`, hexadecimal with a leading `0x`/`0X`; every number but the last is one
+  byte, the last fills the remaining bytes;
+* IPv6 text (RFC 4291 §2.2 forms 1–3: `C43.Spec.plainIPv6`), optionally followed by `%` and a zone id (RFC 4007 §11;
+  the characters of RFC 6874 `ZoneID` without pct-encoding: ALPHA / DIGIT / "-" / "." / "_" / "~"). -/
+
+def isOctDigit (c : Nat) : Bool := 48 ≤ c && c ≤ 55
+
+/-- value of a digit string in the given base (digits assumed valid) -/
+def baseVal (b : Nat) (s : Str) : Nat := s.foldl (fun acc c => acc * b + hexVal c) 0
+
+/-- one number of the numbers-and-dots notation, with its value -/
+def atonNumber (s : Str) : Option Nat :=
+  match s with
+  | [] => none
+  | 48 :: x :: rest =>
+    if x = 120 ∨ x = 88 then (if !rest.isEmpty && rest.all isHexDigit then some (baseVal 16 rest) else none)
+    else if (x :: rest).all isOctDigit then some (baseVal 8 (x :: rest)) else none
+  | _ => if s.all isDigit then some (baseVal 10 s) else none
+
+def numbersAndDots (s : Str) : Bool :=
+  let ps := splitAll 46 s
+  match ps.mapM atonNumber with
+  | none => false
+  | some vs =>
+    1 ≤ vs.length && vs.length ≤ 4 && vs.dropLast.all (· ≤ 255) &&
+    (match vs.getLast? with
+     | some l => l < 256 ^ (5 - vs.length)
+     | none => false)
+
+def isZoneChar (c : Nat) : Bool :=
+  C43.isAlnum c || c = 45 || c = 46 || c = 95 || c = 126
+
+def numericIPv6 (s : Str) : Bool :=
+  match C43.splitFirst 37 s with
+  | none => C43.Spec.plainIPv6 s
+  | some (a, z) => C43.Spec.plainIPv6 a && !z.isEmpty && z.all isZoneChar
+
+/-- a numeric IP address -/
+def numericIP (s : Str) : Bool := numbersAndDots s || numericIPv6 s
+
+/-- the addresses every resolver must accept (no zone, no `inet_aton` short forms): `C43.Spec.plainIP` -/
+def plainIP (s : Str) : Bool := C43.Spec.plainIP s
+
+/-- what the literal reading allows `remote_ip` to be, *without reference to `is_valid_ip`*: the candidate when it is
+    a plain address; the socket address when it is not numeric at all; either one for the numeric forms whose
+    acceptance is the platform resolver's call (short IPv4 forms, zone ids naming an interface) -/
+def allowed (sockIp : Str) (trusted : List Str) (xff realIp : Option Str) : List Str :=
+  match candidate trusted xff realIp with
+  | none => [sockIp]
+  | some c => if plainIP c then [c] else if numericIP c then [c, sockIp] else [sockIp]
+
+def allowedOf (sockIp : Str) (trusted : List Str) (h : Headers) : List Str :=
+  allowed sockIp trusted (hget h "X-Forwarded-For") (hget h "X-Real-Ip")
 
 def protocolOk (p : Str) : Bool := p = cHttp || p = cHttps
 
